@@ -37,6 +37,7 @@ func runC17(c *Ctx) {
 	c17R10(c)
 	c17R11(c)
 	c17R12(c)
+	c17R13(c)
 	livePersisted(c, c.R.Rule("R7", "K8 what is persisted is the live instance: a pipeline/connector/processor service method that fetched an instance hands that very instance to store.Set, or a copy that sets every exported field", 10))
 }
 
@@ -830,5 +831,184 @@ func c17R12(c *Ctx) {
 			}
 			c.R.Check(!late, r, kit.FuncKey(fn)+": no instance field is assigned after the persist succeeded", c.Pos(at), "none", "an exported field of the live instance is assigned behind the success edge of store.Set: the stored document lacks it — memory is right until the next restart, which loads the old value (for UpdateStatus: a degraded pipeline comes back without its error, or with a stale one)", true)
 		}
+	}
+}
+
+// c17R13: the copy PrepareSet persists carries the instance's values as they
+// are: no path replaces a reference-typed field (map, slice, pointer,
+// interface) by the nil constant unless the instance's own value is nil there.
+// An empty-but-present settings map stored as null is read back as "never
+// configured" (LastActiveConfig.Settings == nil is the engine's marker for a
+// connector that was never started).
+func c17R13(c *Ctx) {
+	r := c.R.Rule("R13", "K6 the stored copy keeps nil-ness: no value stored into the Instance/Config copy of connector.Store.PrepareSet (directly, through a phi, or through the result of a same-module helper applied to the instance's field) is the nil constant on a path where the instance's value was not tested to be nil", 3)
+	fn := c.SSA(r, pConn, "(*Store).PrepareSet")
+	instT := c.Type(r, pConn, "Instance")
+	cfgT := c.Type(r, pConn, "Config")
+	if fn == nil || instT == nil || cfgT == nil {
+		return
+	}
+	var inst *ssa.Parameter
+	for _, p := range fn.Params {
+		if pt, ok := p.Type().(*types.Pointer); ok && types.Identical(pt.Elem(), instT) {
+			inst = p
+		}
+	}
+	if inst == nil {
+		c.R.Unresolved(r, "PrepareSet: *Instance parameter")
+		return
+	}
+	rootedAt := func(v ssa.Value, root ssa.Value) bool {
+		for i := 0; i < 12 && v != nil; i++ {
+			if v == root {
+				return true
+			}
+			switch x := v.(type) {
+			case *ssa.UnOp:
+				if x.Op != token.MUL {
+					return false
+				}
+				v = x.X
+			case *ssa.FieldAddr:
+				v = x.X
+			case *ssa.Field:
+				v = x.X
+			default:
+				return false
+			}
+		}
+		return false
+	}
+	isRefType := func(t types.Type) bool {
+		switch t.Underlying().(type) {
+		case *types.Map, *types.Slice, *types.Pointer, *types.Interface:
+			return true
+		}
+		return false
+	}
+	copyRoot := func(addr ssa.Value) bool {
+		for i := 0; i < 6 && addr != nil; i++ {
+			switch x := addr.(type) {
+			case *ssa.FieldAddr:
+				addr = x.X
+			case *ssa.Alloc:
+				et := x.Type().(*types.Pointer).Elem()
+				return types.Identical(et, instT) || types.Identical(et, cfgT)
+			default:
+				return false
+			}
+		}
+		return false
+	}
+	// check reports the places where v may be the nil constant although no
+	// value accepted by src was tested nil on the way.
+	type bad struct {
+		at  ssa.Instruction
+		why string
+	}
+	var check func(f *ssa.Function, v ssa.Value, src func(ssa.Value) bool, depth int, seen map[ssa.Value]bool) []bad
+	nilGates := func(f *ssa.Function, src func(ssa.Value) bool) *kit.Gates {
+		g := kit.NewGates()
+		for _, p := range f.Params {
+			if src(p) {
+				g.AddEdges(kit.NilEdges(p, true), "")
+			}
+		}
+		for _, b := range f.Blocks {
+			for _, in := range b.Instrs {
+				if v, ok := in.(ssa.Value); ok && src(v) {
+					g.AddEdges(kit.NilEdges(v, true), "")
+				}
+			}
+		}
+		return g
+	}
+	check = func(f *ssa.Function, v ssa.Value, src func(ssa.Value) bool, depth int, seen map[ssa.Value]bool) []bad {
+		if v == nil || seen[v] || depth > 3 {
+			return nil
+		}
+		seen[v] = true
+		var out []bad
+		switch x := v.(type) {
+		case *ssa.Phi:
+			g := nilGates(f, src)
+			for i, e := range x.Edges {
+				pred := x.Block().Preds[i]
+				if kit.IsNilConst(e) {
+					if g.Edges[kit.Edge{From: pred, To: x.Block()}] {
+						continue
+					}
+					term := pred.Instrs[len(pred.Instrs)-1]
+					if ok, _ := kit.MustPass(term, g); !ok {
+						out = append(out, bad{term, "the nil constant is merged in from block " + fmt.Sprint(pred.Index) + " of " + kit.FuncKey(f)})
+					}
+					continue
+				}
+				out = append(out, check(f, e, src, depth, seen)...)
+			}
+		case *ssa.ChangeType:
+			out = append(out, check(f, x.X, src, depth, seen)...)
+		case *ssa.MakeInterface:
+			out = append(out, check(f, x.X, src, depth, seen)...)
+		case *ssa.Call:
+			callee := x.Call.StaticCallee()
+			if callee == nil || len(callee.Blocks) == 0 || callee.Signature.Results().Len() != 1 || callee.Pkg == nil || !strings.HasPrefix(callee.Pkg.Pkg.Path(), kit.Module) {
+				return nil
+			}
+			idx := -1
+			for i, a := range x.Call.Args {
+				if src(a) {
+					idx = i
+				}
+			}
+			if idx < 0 || idx >= len(callee.Params) {
+				return nil
+			}
+			param := callee.Params[idx]
+			psrc := func(y ssa.Value) bool { return y == param }
+			g := nilGates(callee, psrc)
+			for _, ret := range kit.Returns(callee) {
+				rv := kit.RetVal(ret, 0)
+				if kit.IsNilConst(rv) {
+					if ok, _ := kit.MustPass(ret, g); !ok {
+						out = append(out, bad{ret, kit.FuncKey(callee) + " returns the nil constant on a path where its argument was not tested to be nil"})
+					}
+					continue
+				}
+				out = append(out, check(callee, rv, psrc, depth+1, seen)...)
+			}
+		}
+		return out
+	}
+	n := 0
+	for _, b := range fn.Blocks {
+		for _, in := range b.Instrs {
+			st, ok := in.(*ssa.Store)
+			if !ok || !copyRoot(st.Addr) || !isRefType(st.Val.Type()) {
+				continue
+			}
+			fa, _ := st.Addr.(*ssa.FieldAddr)
+			name := "?"
+			if fa != nil {
+				if s, ok := fa.X.Type().(*types.Pointer).Elem().Underlying().(*types.Struct); ok {
+					name = s.Field(fa.Field).Name()
+				}
+			}
+			n++
+			vt := st.Val.Type()
+			src := func(y ssa.Value) bool { return types.Identical(y.Type(), vt) && y != inst && rootedAt(y, inst) }
+			bads := check(fn, st.Val, src, 0, map[ssa.Value]bool{})
+			key := "PrepareSet stores " + name
+			if len(bads) == 0 {
+				c.R.Pass(r, key, c.Pos(posOf(st)), "never replaced by the nil constant", true)
+				continue
+			}
+			for _, bd := range bads {
+				c.R.Fail(r, key, c.Pos(posOf(bd.at)), bd.why+": an empty but present "+name+" is persisted as null and read back as nil after a restart")
+			}
+		}
+	}
+	if n == 0 {
+		c.R.Fail(r, "PrepareSet: stores into the persisted copy", c.Pos(fn.Pos()), "no store of a reference-typed field into an Instance/Config copy found (shape changed)")
 	}
 }
